@@ -1,0 +1,13 @@
+//go:build verif
+
+// Contracts for package ipldbindcode, property C07 (comment-only; read by /verif/vcgo, build tag verif).
+package ipldbindcode
+
+// First signature of the transaction = function of the node (generic: used by the gsfa readers (C07) for the before/until
+// comparison; `pure` makes tx.Signature() nameable in the callers' contracts).
+// `modifies decoded.Data.Data`: the bytes are handed to the third-party compact-u16 decoder, which only reads them (vcgo
+// assumes externals may write slices, see readFirstSignature).
+//@ func (Transaction) Signature
+//@   mode int
+//@   pure
+//@   modifies decoded.Data.Data
